@@ -97,3 +97,10 @@ Theorem C01_chunks_carry_text : forall s st cols t m,
   In (EChunk t m) (fst (fst (stream st s (mkOpts cols false)))) -> exists x, t = Some x.
 Proof. exact ReassAllText.all_stream_chunks_carry_text. Qed.
 Print Assumptions C01_chunks_carry_text.
+
+(* the extracted checker accepts the model's own observations of every tree, after any warm-up calls *)
+From RS Require Import Api.ApiTree.
+From RS Require Proofs.ChkModelC01.
+Theorem C01_checker_accepts_model : forall s ws, chk_C01 s (api_tree s ws) = if tree_wf s then 0 else 100.
+Proof. exact ChkModelC01.chk_C01_model_total. Qed.
+Print Assumptions C01_checker_accepts_model.
